@@ -44,10 +44,14 @@ def run(ctx, progs):
     ctx.rule("DERIV1", "forwarders have the reviewed shape with pass-through arguments")
     ctx.rule("NONE1", "None only over edges establishing N==0 / size==0 / index>=size; Some only under index<size / size>0")
     ctx.rule("TWIN", "&/&mut accessor pairs: equal event skeletons modulo mutability [twin]")
+    ctx.rule("KIND1", "index-kind inference: physical positions and logical indices/lengths are never compared, and never stand in for each other")
     for cfg, prog in progs.items():
         deriv1(ctx, prog, cfg)
         none1(ctx, prog, cfg)
         shapes.viewcmp1(ctx, prog, cfg)
+        from .. import kinds
+
+        kinds.run(ctx, prog, cfg)
         from . import c08
 
         c08.iterset1(ctx, prog, cfg, "DERIV1", types=("Iter", "IterMut"))
